@@ -50,6 +50,9 @@ Record regen_facts := {
   rf_binding_classes : list string;   (* sorted *)
   rf_exported_classes : list string;  (* sorted: binding classes reachable as neuroml.<Name> (star import of __all__) *)
   rf_complex_types : list string;     (* sorted, of NeuroML_<current>.xsd *)
+  rf_name_table_regen : list (string * string);    (* generateds_config.py re-run on the tree's schema/config, sorted *)
+  rf_name_table_shipped : list (string * string);  (* neuroml/nml/name_table.csv, sorted *)
+  rf_member_name_violations : list (string * string); (* (class, xml name) whose python name is not the table's *)
   rf_current : string;
   rf_header_schema : string;
   rf_writer_schema : string;
@@ -60,8 +63,17 @@ Record regen_facts := {
 
 Definition schema_of (v : string) : string := "NeuroML_" ++ v ++ ".xsd".
 
+Fixpoint pairs_eqb (a b : list (string * string)) : bool :=
+  match a, b with
+  | [], [] => true
+  | (x1, y1) :: a', (x2, y2) :: b' => String.eqb x1 x2 && String.eqb y1 y2 && pairs_eqb a' b'
+  | _, _ => false
+  end.
+
 Definition regen_ok (f : regen_facts) : bool :=
   tab_eqb (rf_src f) (rf_nml f)
+  && pairs_eqb (rf_name_table_regen f) (rf_name_table_shipped f)
+  && match rf_member_name_violations f with [] => true | _ => false end
   && match rf_dangling f with [] => true | _ => false end
   && strs_eqb (rf_binding_classes f) (rf_complex_types f)
   && strs_eqb (rf_exported_classes f) (rf_complex_types f)
